@@ -28,7 +28,7 @@ class Cfg:
         report_minimal=False,   # --report=minimal: the one-line tabular report on stdout must agree with the JSON report
         demux_twice=False, # {name} occurs twice in the output path (every occurrence is replaced)
         side_files=(),     # subset of ("rest", "wildcard"): --rest-file / --wildcard-file, which must not influence anything else
-        index=False,       # True: run without --no-index (only for adapter sets for which no index can be built, C09)
+        index=False,       # True: run without --no-index (adapter sets for which no index can be built, C09; indexed sets: oracles only)
     )
 
     def __init__(self, **kw):
@@ -314,8 +314,18 @@ def adapter_field(ad):
     return "S,%s,%s" % (U.enc(ad.name), _single_fields(ad))
 
 
+def no_index_possible(adapters):
+    """at most one anchored 5' and at most one anchored 3' adapter (linked ones are never indexed): AdapterCutter cannot build an index"""
+    pre = sum(1 for _, spec in adapters if "..." not in spec and spec.split("=", 1)[-1].startswith("^"))
+    suf = sum(1 for _, spec in adapters if "..." not in spec and spec.split("=", 1)[-1].split(";")[0].endswith("$"))
+    return pre <= 1 and suf <= 1
+
+
 def model_supported(cfg, objs):
-    """option sets outside what Model/Pipeline.v covers (stated in DESIGN): float thresholds go through vm_compute"""
+    """option sets outside what Model/Pipeline.v covers (stated in DESIGN): float thresholds go through vm_compute; runs in which
+    an adapter index is in use are compared with the oracles only (Model/Index.v is tied to the code by the C08 check)"""
+    if cfg.index and not no_index_possible(cfg.adapters):
+        return False
     return cfg.max_ee is None and cfg.max_aer is None and not isinstance(cfg.max_n, float) and cfg.rename is None
 
 
